@@ -360,6 +360,44 @@ CORE_UP = ["repeat", "tee", "split", "nest-explode", "nest-implode", "fill-down"
 CORE_DOWN = ["cat-n", "put-count", "put-rsum", "step", "head", "tac", "count", "put-dot", "label", "fill-down", "tee", "uniq-a"]
 
 
+# Key-lifecycle core (added after seeded change C05-a): every (upstream that renames / removes / re-creates / reorders
+# field names in place) x (downstream that reaches a field by name) pair, on narrow and on wide (> 12 fields, where
+# Miller switches to a per-record key index) records.  A stale name->entry association left behind by the upstream verb is
+# invisible to the writer and shows only when a later verb in the same chain looks the name up.
+KEY_UP = [
+    ("rename-aZ", ["rename", "a,z"]), ("rename-ab", ["rename", "a,b"]), ("rename-swap", ["rename", "x,y,y,x"]),
+    ("rename-r", ["rename", "-r", "^(.)$,f_\\1"]), ("rename-gr", ["rename", "-g", "-r", "[aeiou],V"]),
+    ("rename-w", ["rename", "w3,a,a,w3"]), ("label", ["label", "ID,AA,a"]), ("label-1", ["label", "b"]),
+    ("reorder", ["reorder", "-f", "x,a"]), ("reorder-e", ["reorder", "-e", "-f", "a,id"]),
+    ("cut-x", ["cut", "-x", "-f", "a,w5"]), ("cut-o", ["cut", "-o", "-f", "x,b,a,id,w1,w2,w3,w4,w5,w6,w7,w8,w9,w10"]),
+    ("put-unset", ["put", "unset $a"]), ("put-unset-assign", ["put", 'unset $a; $a = "re"']),
+    ("put-mapexcept", ["put", '$* = mapexcept($*, "a")']), ("put-star", ["put", '$* = mapsum({"a": "first"}, $*)']),
+    ("put-positional-name", ["put", '$[[2]] = "z"']), ("put-positional-name-w", ["put", '$[[14]] = "a"']),
+    ("put-rename-for", ["put", 'map o = {}; for (k, v in $*) { o[k == "a" ? "z" : k] = v } $* = o']),
+    ("sort-within-records", ["sort-within-records"]), ("sort-within-records-r", ["sort-within-records", "-r"]),
+    ("template", ["template", "-f", "w3,a,zz,id"]), ("unsparsify-f", ["unsparsify", "-f", "zz,a"]),
+    ("regularize", ["regularize"]), ("nest-explode-f", ["nest", "--explode", "--values", "--across-fields", "-f", "s"]),
+    ("merge-fields", ["merge-fields", "-a", "sum", "-f", "x,i", "-o", "a"]), ("merge-fields-c", ["merge-fields", "-a", "count", "-c", "w", "-o", "w"]),
+    ("reshape-w2l", ["reshape", "-i", "x,a", "-o", "key,value"]), ("sec2gmt", ["sec2gmt", "t"]),
+    ("fill-empty", ["fill-empty", "-v", "E"]), ("altkv", ["altkv"]), ("sparsify", ["sparsify"]),
+    ("case-k", ["case", "-u", "-k", "-f", "a,b"]), ("unspace-k", ["unspace", "-k"]), ("json-stringify", ["json-stringify", "-f", "a"]),
+]
+KEY_DOWN = [
+    ("put-assign-a", ["put", '$a = "new"']), ("put-assign-z", ["put", '$z = "new"']), ("put-read-a", ["put", '$got = $a . "|" . $z . "|" . $A']),
+    ("put-present", ["put", '$pa = is_present($a); $pz = is_present($z); $pw = is_present($w3); $pb = is_present($b)']),
+    ("put-unset-a", ["put", "unset $a"]), ("put-unset-z", ["put", "unset $z, $b"]),
+    ("put-star-index", ["put", '$q = $*["a"] ?? "absent"; $*["w3"] = "W"']),
+    ("cut-x-a", ["cut", "-x", "-f", "a"]), ("cut-f-az", ["cut", "-f", "a,z,id,w3"]), ("cut-o-az", ["cut", "-o", "-f", "z,a,w11"]),
+    ("rename-ba", ["rename", "b,a"]), ("rename-za", ["rename", "z,a"]), ("rename-a-new", ["rename", "a,n,w3,a"]),
+    ("reorder-a", ["reorder", "-f", "a"]), ("reorder-e-z", ["reorder", "-e", "-f", "z,a"]),
+    ("sort-f-a", ["sort", "-f", "a", "-nr", "w3"]), ("head-g-a", ["head", "-n", "1", "-g", "a"]), ("count-distinct-a", ["count-distinct", "-f", "a"]),
+    ("fill-down-a", ["fill-down", "-a", "-f", "a,z"]), ("having-a", ["having-fields", "--at-least", "a"]), ("having-z", ["having-fields", "--any-defined", "z,a"]),
+    ("nest-implode-a", ["nest", "--ivar", ";", "-f", "a"]), ("sec2gmt-a", ["sec2gmt", "a,w3,t"]), ("template-a", ["template", "-f", "a,z,w3"]),
+    ("unsparsify-a", ["unsparsify", "-f", "a,z"]), ("stats1-a", ["stats1", "-a", "count,mode", "-f", "a,w3"]), ("label-a", ["label", "a"]),
+    ("sub-a", ["sub", "-f", "a,z", "e", "E"]), ("merge-fields-a", ["merge-fields", "-k", "-a", "count", "-f", "a,z,w3", "-o", "azw"]),
+]
+
+
 def catalogue(rng):
     """One random option set per family. -> list of (family, argv, aux-files dict)."""
     k = rng.choice([0, 1, 2, 3, 5, 17])
@@ -588,7 +626,9 @@ def pipe_case(case):
     rng = random.Random(case["seed"])
     tier = case["tier"]
     cat = catalogue(rng)
-    if "families" in case:
+    if "explicit" in case:
+        picks = [(fam, list(argv), {}) for fam, argv in case["explicit"]]
+    elif "families" in case:
         byfam = {c[0]: c for c in cat}
         picks = [byfam[f] for f in case["families"] if f in byfam]
         if len(picks) != len(case["families"]):
@@ -612,7 +652,7 @@ def pipe_case(case):
     ifmt = rng.choice(["dkvp", "dkvp", "json", "csv"]) if not rich else rng.choice(["dkvp", "csv"])
     homog = ifmt == "csv"
     recs = a_records(rng, n, ragged=0 if homog else rng.choice([0, 0.15]), hetero=(not homog and rng.random() < 0.3),
-                     wide=rng.random() < 0.1, rich=rich, homog=homog)
+                     wide=case.get("wide", rng.random() < 0.25), rich=rich, homog=homog)
     if ifmt == "dkvp":
         inp = dkvp_text(recs)
     elif ifmt == "json":
@@ -673,6 +713,8 @@ def pipe_case(case):
     plans = [("json", prefer_json)]
     if len(verbs) >= 2:
         plans += [("dkvp", prefer_dkvp), ("xsv", prefer_xsv)]
+    if "explicit" in case and tier == "quick":
+        plans = plans[:1]   # key-lifecycle core: 1015 pairs; one (JSON) intermediate each in the quick tier
     seen_fmt_seqs = set()
     stage_changes = None
     for pname, prefer in plans:
@@ -1078,7 +1120,9 @@ def ctx_case(case):
     rng = random.Random(case["seed"])
     fmt = case["fmt"]
     opts = {}
-    if fmt in ("csv", "tsv"):
+    if case.get("force_opts") is not None:
+        opts = dict(case["force_opts"])
+    elif fmt in ("csv", "tsv"):
         c = rng.random()
         if c < 0.2:
             opts["implicit"] = True
@@ -1099,7 +1143,7 @@ def ctx_case(case):
             name = f"in{fi}.dat"
         used.add(name)
         fd = b_file(rng, fmt, fi, prev_keys, opts)
-        prev_keys = fd["keys"] if rng.random() < 0.6 else None
+        prev_keys = fd["keys"] if (rng.random() < 0.6 and not case.get("fresh_keys")) else None
         files[name] = fd["text"].encode("utf-8")
         flist.append((name, fd))
     names = [n for n, _ in flist]
@@ -1539,6 +1583,12 @@ def run(chk):
                     cases.append({"seed": f"{chk.seed}/ac/{idx}", "tier": chk.tier, "families": [fa, fb], "core": True})
                     idx += 1
             chk.extra["a_core_pairs_enumerated"] = idx
+            kidx = 0
+            for ua in KEY_UP:
+                for da in KEY_DOWN:
+                    cases.append({"seed": f"{chk.seed}/ak/{kidx}", "tier": chk.tier, "explicit": [ua, da], "core": True, "wide": kidx % 3 != 0})
+                    kidx += 1
+            chk.extra["a_key_lifecycle_pairs_enumerated"] = kidx
             for i in range(160):
                 cases.append({"seed": f"{chk.seed}/a2/{i}", "tier": chk.tier, "len": 2})
             for i in range(70):
@@ -1552,6 +1602,17 @@ def run(chk):
                     for rep in range(2 if (fa.startswith(("put-", "filter-")) == fb.startswith(("put-", "filter-"))) else 1):
                         cases.append({"seed": f"{chk.seed}/ap/{idx}", "tier": chk.tier, "families": [fa, fb]})
                         idx += 1
+            kidx = 0
+            for ua in KEY_UP:
+                for da in KEY_DOWN:
+                    for wide in (True, False):
+                        cases.append({"seed": f"{chk.seed}/ak/{kidx}", "tier": chk.tier, "explicit": [ua, da], "core": True, "wide": wide})
+                        kidx += 1
+            for i in range(600):   # key-lifecycle chains of length 3: up, up, down
+                r3 = random.Random(f"{chk.seed}/ak3/{i}")
+                cases.append({"seed": f"{chk.seed}/ak3/{i}", "tier": chk.tier, "explicit": [r3.choice(KEY_UP), r3.choice(KEY_UP), r3.choice(KEY_DOWN)],
+                              "core": True, "wide": i % 4 != 0})
+            chk.extra["a_key_lifecycle_pairs_enumerated"] = kidx
             for i in range(2000):
                 cases.append({"seed": f"{chk.seed}/a34/{i}", "tier": chk.tier, "len": 3 + (i % 2)})
             chk.extra["a_ordered_family_pairs_enumerated"] = len(fam_names) ** 2
@@ -1561,6 +1622,12 @@ def run(chk):
     if not only or "b" in only:
         n = 20 if q else 112
         cases = [{"seed": f"{chk.seed}/b/{fmt}/{i}", "fmt": fmt, "tier": chk.tier} for fmt in B_FORMATS for i in range(n)]
+        # reader-option sweep (added after seeded change C05-b): per-file reader state (the header, implicit or read) must not
+        # leak from one file to the next; every option set x file lists whose files all have their own column count
+        for fmt in ("csv", "tsv"):
+            for oi, fo in enumerate([{"implicit": True}, {"ragged": True}, {}]):
+                for i in range(6 if q else 40):
+                    cases.append({"seed": f"{chk.seed}/bo/{fmt}/{oi}/{i}", "fmt": fmt, "tier": chk.tier, "force_opts": fo, "fresh_keys": True})
         for c in cases[:1] + cases[len(cases) // 2:len(cases) // 2 + 1] + cases[-1:]:
             c["sample"] = True
         chk.pmap(ctx_case, cases, chunksize=2, label="b context model")
